@@ -1,11 +1,26 @@
-/-! Prototype: bit-exact integer model of the binary64 operations used by NewScaledNumberType / GetValue -/
+/-! C19: bit-exact integer model of the binary64 operations used by `NewScaledNumberType` / `GetValue`
+    (`model/commondatatypes_additions.go:266-304`). Core Lean only (imported by `Drivers/Num.lean`).
+
+    The model is a family (`Cfg`): as written, `NewScaledNumberType` truncates the binary product
+    (`math.Trunc`) and `GetValue` multiplies by the inexact `math.Pow(10, scale)`; the repaired member
+    rounds (`math.Round`) and divides by the exact `math.Pow(10, -scale)` for negative scales. -/
 namespace Spine.Num
 
-/-- number of bits of n (0 for 0); structural on fuel so that `decide` can evaluate it -/
-def bitLenF : Nat → Nat → Nat
-  | 0, _ => 0
-  | fuel+1, n => if n = 0 then 0 else bitLenF fuel (n / 2) + 1
-def bitLen (n : Nat) : Nat := bitLenF 2200 n
+/-- defect flags of C19 (DESIGN §4.7); the default is the code as written -/
+structure Cfg where
+  /-- `number = Trunc(value * 10^d)` (as written) instead of `Round(value * 10^d)` -/
+  truncScaled : Bool := true
+  /-- `GetValue = number * Pow(10, scale)` also for negative scales (as written) instead of
+      `number / Pow(10, -scale)` -/
+  inexactPower : Bool := true
+deriving DecidableEq, Repr
+
+def Cfg.asWritten : Cfg := {}
+def Cfg.repaired : Cfg := { truncScaled := false, inexactPower := false }
+
+/-- number of bits of n (0 for 0). `Nat.log2` is evaluated natively by the compiler and by the kernel
+    (`decide +kernel`), and core has its two characteristic inequalities. -/
+def bitLen (n : Nat) : Nat := if n = 0 then 0 else Nat.log2 n + 1
 
 /-- a finite binary64 in normal range: value = (-1)^neg * m * 2^e with m = 0 or 2^52 ≤ m < 2^53 -/
 structure Dbl where
@@ -14,70 +29,343 @@ structure Dbl where
   e : Int
 deriving DecidableEq, Repr
 
-/-- round-to-nearest-even of the rational n/d (d > 0) to 53 significant bits -/
+/-- `2^52` and `2^53` as named constants: the compiled code evaluates a closed constant once, a
+    literal of this size at every use -/
+@[noinline] def p52 : Nat := 2 ^ 52
+@[noinline] def p53 : Nat := 2 ^ 53
+
+/-- `10^n`; the compiled code takes the five powers the conversions use from a table -/
+def tenPow (n : Nat) : Nat := 10 ^ n
+
+def tenPowTable (n : Nat) : Nat :=
+  match n with
+  | 0 => 1 | 1 => 10 | 2 => 100 | 3 => 1000 | 4 => 10000
+  | n => 10 ^ n
+
+@[csimp] theorem tenPow_eq_table : @tenPow = @tenPowTable := by
+  funext n
+  match n with
+  | 0 | 1 | 2 | 3 | 4 => rfl
+  | n + 5 => rfl
+
+/-- quotient, remainder and divisor of `n / (d * 2^e)` (e ≥ 0) resp. `(n * 2^-e) / d` (e < 0) -/
+def quo (n d : Nat) (e : Int) : Nat × Nat × Nat :=
+  if e ≥ 0 then (n / (d <<< e.toNat), n % (d <<< e.toNat), d <<< e.toNat)
+  else (n <<< (-e).toNat / d, n <<< (-e).toNat % d, d)
+
+/-- round the quotient `q` with remainder `r` (divisor `dd`) to nearest, ties to even; a carry out of
+    53 bits moves to the next binade -/
+def roundQ (q r dd : Nat) (e : Int) : Nat × Int :=
+  let q' := if 2 * r > dd || (2 * r == dd && q % 2 == 1) then q + 1 else q
+  if q' = p53 then (p52, e + 1) else (q', e)
+
+/-- round-to-nearest-even of the rational n/d (d > 0) to 53 significant bits: with
+    `e0 = bitLen n - bitLen d - 53` the quotient `n / d * 2^-e0` lies in `(2^52, 2^54)`, so the exponent
+    is `e0` or `e0 + 1` -/
 def rnd (n d : Nat) : Nat × Int :=
   if n = 0 then (0, 0) else
   let e0 : Int := (bitLen n : Int) - (bitLen d : Int) - 53
-  let quo (e : Int) : Nat × Nat × Nat :=       -- quotient, remainder, divisor
-    if e ≥ 0 then let dd := d * 2 ^ e.toNat; (n / dd, n % dd, dd)
-    else let nn := n * 2 ^ (-e).toNat; (nn / d, nn % d, d)
-  let (q0, _, _) := quo e0
-  let e : Int := if q0 ≥ 2 ^ 53 then e0 + 1 else if q0 < 2 ^ 52 then e0 - 1 else e0
-  let (q, r, dd) := quo e
-  let up : Bool := 2 * r > dd || (2 * r == dd && q % 2 == 1)
-  let q' := if up then q + 1 else q
-  if q' = 2 ^ 53 then (2 ^ 52, e + 1) else (q', e)
+  let q0 := quo n d e0
+  if q0.1 < p53 then roundQ q0.1 q0.2.1 q0.2.2 e0
+  else let q1 := quo n d (e0 + 1); roundQ q1.1 q1.2.1 q1.2.2 (e0 + 1)
 
-def ofRat (neg : Bool) (n d : Nat) : Dbl := let (m, e) := rnd n d; ⟨neg && m != 0, m, e⟩
+/-- the double nearest to ±n/d (a zero keeps its sign as an IEEE product or quotient does; a parsed or
+    converted zero is +0 because `k < 0` is false for `k = 0`) -/
+def ofRat (neg : Bool) (n d : Nat) : Dbl := ⟨neg, (rnd n d).1, (rnd n d).2⟩
 
 /-- strconv.ParseFloat of the decimal k * 10^-d -/
-def parseDec (k : Int) (d : Nat) : Dbl := ofRat (k < 0) k.natAbs (10 ^ d)
+def parseDec (k : Int) (d : Nat) : Dbl := ofRat (k < 0) k.natAbs (tenPow d)
 
+/-- float64(k) for an int64 k -/
 def ofInt (k : Int) : Dbl := ofRat (k < 0) k.natAbs 1
 
-/-- correctly rounded product -/
-def mul (a b : Dbl) : Dbl :=
+/-- the exact rational (numerator, denominator) of |a * b| -/
+def mulRat (a b : Dbl) : Nat × Nat :=
   let e := a.e + b.e
-  if e ≥ 0 then ofRat (a.neg != b.neg) (a.m * b.m * 2 ^ e.toNat) 1
-  else ofRat (a.neg != b.neg) (a.m * b.m) (2 ^ (-e).toNat)
+  if e ≥ 0 then ((a.m * b.m) <<< e.toNat, 1) else (a.m * b.m, 1 <<< (-e).toNat)
+
+/-- correctly rounded product -/
+def mul (a b : Dbl) : Dbl := ofRat (a.neg != b.neg) (mulRat a b).1 (mulRat a b).2
+
+/-- the exact rational of |a / b| (b ≠ 0) -/
+def divRat (a b : Dbl) : Nat × Nat :=
+  let e := a.e - b.e
+  if e ≥ 0 then (a.m <<< e.toNat, b.m) else (a.m, b.m <<< (-e).toNat)
+
+/-- correctly rounded quotient (b ≠ 0) -/
+def div (a b : Dbl) : Dbl := ofRat (a.neg != b.neg) (divRat a b).1 (divRat a b).2
 
 /-- math.Pow(10, s) for -4 ≤ s ≤ 4 (Go computes 10^|s| exactly and takes the reciprocal for s<0) -/
-def pow10 (s : Int) : Dbl := if s ≥ 0 then ofInt (10 ^ s.toNat) else ofRat false 1 (10 ^ (-s).toNat)
+def pow10 (s : Int) : Dbl := if s ≥ 0 then ofInt (tenPow s.toNat) else ofRat false 1 (tenPow (-s).toNat)
+
+/-- magnitude of math.Trunc (toward zero) -/
+def truncMag (a : Dbl) : Nat := if a.e ≥ 0 then a.m <<< a.e.toNat else a.m >>> (-a.e).toNat
+
+/-- magnitude of math.Round (half away from zero) -/
+def roundMag (a : Dbl) : Nat :=
+  if a.e ≥ 0 then a.m <<< a.e.toNat else (2 * a.m + 1 <<< (-a.e).toNat) >>> ((-a.e).toNat + 1)
+
+def withSign (neg : Bool) (mag : Nat) : Int := if neg then -(mag : Int) else mag
 
 /-- math.Trunc followed by conversion to int64 (|value| < 2^63 assumed) -/
-def truncToInt (a : Dbl) : Int :=
-  let mag : Nat := if a.e ≥ 0 then a.m * 2 ^ a.e.toNat else a.m / 2 ^ (-a.e).toNat
-  if a.neg then -(mag : Int) else mag
+def truncToInt (a : Dbl) : Int := withSign a.neg (truncMag a)
+
+/-- math.Round followed by conversion to int64 (|value| < 2^63 assumed) -/
+def roundToInt (a : Dbl) : Int := withSign a.neg (roundMag a)
+
+/-- the integer nearest to |v| * 10^n (half up) -/
+def nearestJ (v : Dbl) (n : Nat) : Nat :=
+  if v.e ≥ 0 then (v.m * tenPow n) <<< v.e.toNat
+  else (2 * (v.m * tenPow n) + 1 <<< (-v.e).toNat) >>> ((-v.e).toNat + 1)
 
 /-- does some j/10^n round to v?  (j must be the integer nearest to v*10^n) -/
 def roundTrips (v : Dbl) (n : Nat) : Bool :=
-  -- v*10^n = m*10^n*2^e ; nearest integer j
-  let num := v.m * 10 ^ n
-  let j : Nat := if v.e ≥ 0 then num * 2 ^ v.e.toNat
-                 else let d := 2 ^ (-v.e).toNat; (2 * num + d) / (2 * d)
-  let w := ofRat v.neg j (10 ^ n)
-  w.m == v.m && (w.m == 0 || w.e == v.e)
+  let w := rnd (nearestJ v n) (tenPow n)
+  w.1 == v.m && (w.1 == 0 || w.2 == v.e)
 
 /-- number of decimals of FormatFloat(v,'f',-1,64), capped at 4 as NewScaledNumberType does -/
 def decimalsCapped (v : Dbl) : Nat :=
   if roundTrips v 0 then 0 else if roundTrips v 1 then 1 else if roundTrips v 2 then 2
   else if roundTrips v 3 then 3 else 4
 
+/-- `value * math.Pow(10, numberOfDecimals)` -/
+def scaledProduct (v : Dbl) : Dbl := mul v (pow10 (decimalsCapped v))
+
+def toInt (cfg : Cfg) (a : Dbl) : Int := if cfg.truncScaled then truncToInt a else roundToInt a
+
 /-- NewScaledNumberType: (number, scale) -/
-def newScaled (v : Dbl) : Int × Int :=
-  let nd := decimalsCapped v
-  let number := truncToInt (mul v (pow10 nd))
-  (number, if number != 0 then -(nd : Int) else 0)
+def newScaled (cfg : Cfg) (v : Dbl) : Int × Int :=
+  let number := toInt cfg (scaledProduct v)
+  (number, if number != 0 then -(decimalsCapped v : Int) else 0)
 
 /-- GetValue -/
-def getValue (number scale : Int) : Dbl := mul (ofInt number) (pow10 scale)
+def getValue (cfg : Cfg) (number scale : Int) : Dbl :=
+  if scale < 0 && !cfg.inexactPower then div (ofInt number) (pow10 (-scale))
+  else mul (ofInt number) (pow10 scale)
+
+/-- the exact rational whose rounding `getValue` returns -/
+def getValueRat (cfg : Cfg) (number scale : Int) : Nat × Nat :=
+  if scale < 0 && !cfg.inexactPower then divRat (ofInt number) (pow10 (-scale))
+  else mulRat (ofInt number) (pow10 scale)
+
+theorem getValue_rnd (cfg : Cfg) (number scale : Int) :
+    ((getValue cfg number scale).m, (getValue cfg number scale).e) =
+      rnd (getValueRat cfg number scale).1 (getValueRat cfg number scale).2 := by
+  unfold getValue getValueRat
+  split <;> rfl
+
+/-- a binary64 from its IEEE bits; `none` for subnormals, infinities and NaN (outside the model) -/
+def ofBits (b : Nat) : Option Dbl :=
+  let neg := b >>> 63 % 2 == 1
+  let ex : Nat := b >>> 52 % 2048
+  let fr : Nat := b % p52
+  if ex = 0 then (if fr = 0 then some ⟨neg, 0, 0⟩ else none)
+  else if ex = 2047 then none
+  else some ⟨neg, p52 + fr, (ex : Int) - 1075⟩
+
+/-- is the value zero or a normal binary64 (exponent in range)? -/
+def inRange (a : Dbl) : Bool := a.m == 0 || (p52 ≤ a.m && a.m < p53 && -1074 ≤ a.e && a.e ≤ 971)
+
+/-- IEEE bits without the sign bit (normal numbers and zero only) -/
+def bitsMag (a : Dbl) : Nat := if a.m = 0 then 0 else (a.e + 1075).toNat <<< 52 + (a.m - p52)
 
 /-- IEEE bits, for comparison with math.Float64bits (normal numbers and zero only) -/
-def bits (a : Dbl) : Nat :=
-  if a.m = 0 then (if a.neg then 2 ^ 63 else 0) else
-  (if a.neg then 2 ^ 63 else 0) + ((a.e + 1075).toNat) * 2 ^ 52 + (a.m - 2 ^ 52)
+def bits (a : Dbl) : Nat := (if a.neg then 1 <<< 63 else 0) + bitsMag a
+
+/-- the same magnitude with the opposite sign -/
+def Dbl.negate (a : Dbl) : Dbl := ⟨!a.neg, a.m, a.e⟩
+
+/-- everything the harness can observe about one value: bits of the value, decimals count, bits of
+    `value * 10^decimals`, number, scale, bits of `GetValue` -/
+structure Obs where
+  vbits : Nat
+  decimals : Nat
+  pbits : Nat
+  number : Int
+  scale : Int
+  gbits : Nat
+  inRange : Bool        -- every double involved is zero or normal
+deriving DecidableEq, Repr
+
+def observe (cfg : Cfg) (v : Dbl) : Obs :=
+  let nd := decimalsCapped v
+  let prod := mul v (pow10 nd)
+  let number := toInt cfg prod
+  let scale : Int := if number != 0 then -(nd : Int) else 0
+  let g := getValue cfg number scale
+  ⟨bits v, nd, bits prod, number, scale, bits g, inRange v && inRange prod && inRange g && inRange (ofInt number)⟩
+
+/-- `observe` is `newScaled` followed by `getValue` -/
+theorem observe_spec (cfg : Cfg) (v : Dbl) :
+    ((observe cfg v).number, (observe cfg v).scale) = newScaled cfg v ∧
+    (observe cfg v).gbits = bits (getValue cfg (newScaled cfg v).1 (newScaled cfg v).2) := ⟨rfl, rfl⟩
+
+/-- a rounding the computation took: the rational `n / d` and the result `(m, e)` that was used -/
+structure Rounding where
+  n : Nat
+  d : Nat
+  m : Nat
+  e : Int
+deriving DecidableEq, Repr
+
+def Rounding.of (nd : Nat × Nat) : Rounding := ⟨nd.1, nd.2, (rnd nd.1 nd.2).1, (rnd nd.1 nd.2).2⟩
+def Rounding.used (nd : Nat × Nat) (r : Dbl) : Rounding := ⟨nd.1, nd.2, r.m, r.e⟩
+
+/-- one step of the decimals search: does `nearestJ v n / 10^n` round to `v`, and the rounding taken -/
+def tryDec (v : Dbl) (n : Nat) : Bool × Rounding :=
+  let j := nearestJ v n
+  let w := rnd j (tenPow n)
+  (w.1 == v.m && (w.1 == 0 || w.2 == v.e), ⟨j, tenPow n, w.1, w.2⟩)
+
+/-- `decimalsCapped` together with the roundings the search takes -/
+def decimalsR (v : Dbl) : Nat × List Rounding :=
+  let t0 := tryDec v 0
+  if t0.1 then (0, [t0.2]) else
+  let t1 := tryDec v 1
+  if t1.1 then (1, [t0.2, t1.2]) else
+  let t2 := tryDec v 2
+  if t2.1 then (2, [t0.2, t1.2, t2.2]) else
+  let t3 := tryDec v 3
+  if t3.1 then (3, [t0.2, t1.2, t2.2, t3.2]) else (4, [t0.2, t1.2, t2.2, t3.2])
+
+theorem tryDec_fst (v : Dbl) (n : Nat) : (tryDec v n).1 = roundTrips v n := rfl
+
+theorem tryDec_rnd (v : Dbl) (n : Nat) :
+    ((tryDec v n).2.m, (tryDec v n).2.e) = rnd (tryDec v n).2.n (tryDec v n).2.d := rfl
+
+theorem decimalsR_fst (v : Dbl) : (decimalsR v).1 = decimalsCapped v := by
+  unfold decimalsR decimalsCapped
+  simp only [tryDec_fst]
+  by_cases h0 : roundTrips v 0 = true
+  · simp [h0]
+  · by_cases h1 : roundTrips v 1 = true
+    · simp [h0, h1]
+    · by_cases h2 : roundTrips v 2 = true
+      · simp [h0, h1, h2]
+      · by_cases h3 : roundTrips v 3 = true
+        · simp [h0, h1, h2, h3]
+        · simp [h0, h1, h2, h3]
+
+theorem decimalsR_roundings (v : Dbl) : ∀ r ∈ (decimalsR v).2, (r.m, r.e) = rnd r.n r.d := by
+  intro r hr
+  unfold decimalsR at hr
+  simp only at hr
+  repeat' split at hr
+  all_goals
+    simp only [List.mem_cons, List.not_mem_nil, or_false] at hr
+    rcases hr with rfl | rfl | rfl | rfl <;> exact tryDec_rnd _ _
+
+/-- `observe` together with the roundings it takes (the decimals search, the product, `float64(number)`
+    and the final product or quotient); the driver asserts `Rnd.IsRnd` of each -/
+def observeR (cfg : Cfg) (v : Dbl) : Obs × List Rounding :=
+  let dr := decimalsR v
+  let nd := dr.1
+  let p := pow10 nd
+  let prod := mul v p
+  let number := toInt cfg prod
+  let scale : Int := if number != 0 then -(nd : Int) else 0
+  let fn := ofInt number
+  let g := getValue cfg number scale
+  (⟨bits v, nd, bits prod, number, scale, bits g, inRange v && inRange prod && inRange g && inRange fn⟩,
+   dr.2 ++
+   [Rounding.used (mulRat v p) prod, Rounding.used (number.natAbs, 1) fn,
+    Rounding.used (getValueRat cfg number scale) g])
+
+theorem observeR_obs (cfg : Cfg) (v : Dbl) : (observeR cfg v).1 = observe cfg v := by
+  unfold observeR observe
+  simp only [decimalsR_fst]
+
+/-- every recorded rounding is a call of the executable `rnd` -/
+theorem observeR_roundings (cfg : Cfg) (v : Dbl) :
+    ∀ r ∈ (observeR cfg v).2, (r.m, r.e) = rnd r.n r.d := by
+  intro r hr
+  unfold observeR at hr
+  simp only [List.mem_append, List.mem_cons, List.not_mem_nil, or_false] at hr
+  rcases hr with hr | rfl | rfl | rfl
+  · exact decimalsR_roundings v r hr
+  · rfl
+  · rfl
+  · simp only [Rounding.used]
+    exact getValue_rnd _ _ _
+
+/-! Sign symmetry: the conversions treat a value and its negation alike (`math.Trunc` rounds toward
+    zero, `math.Round` away from zero, everything else is sign-magnitude). The harness uses it to
+    derive the model's answer for `-k * 10^-d` from that for `k * 10^-d` in the largest sweeps. -/
+
+theorem withSign_not (b : Bool) (mag : Nat) : withSign (!b) mag = -withSign b mag := by
+  cases b <;> simp [withSign]
+
+theorem toInt_negate (cfg : Cfg) (a : Dbl) : toInt cfg a.negate = -toInt cfg a := by
+  unfold toInt truncToInt roundToInt
+  split
+  · exact withSign_not a.neg (truncMag a)
+  · exact withSign_not a.neg (roundMag a)
+
+theorem decimalsCapped_negate (v : Dbl) : decimalsCapped v.negate = decimalsCapped v := rfl
+
+theorem mul_negate (a b : Dbl) : mul a.negate b = (mul a b).negate := by
+  unfold mul ofRat Dbl.negate
+  cases a.neg <;> cases b.neg <;> rfl
+
+theorem div_negate (a b : Dbl) : div a.negate b = (div a b).negate := by
+  unfold div ofRat Dbl.negate
+  cases a.neg <;> cases b.neg <;> rfl
+
+theorem ofInt_neg (k : Int) (hk : k ≠ 0) : ofInt (-k) = (ofInt k).negate := by
+  unfold ofInt ofRat Dbl.negate
+  have h1 : (-k).natAbs = k.natAbs := Int.natAbs_neg k
+  have h2 : decide (-k < 0) = !decide (k < 0) := by
+    by_cases h : k < 0
+    · have : ¬ (-k < 0) := by omega
+      simp only [h, this, decide_true, decide_false, Bool.not_true]
+    · have : -k < 0 := by omega
+      simp only [h, this, decide_true, decide_false, Bool.not_false]
+  simp only [h1, h2]
+
+theorem scaledProduct_negate (v : Dbl) : scaledProduct v.negate = (scaledProduct v).negate := by
+  unfold scaledProduct
+  rw [decimalsCapped_negate]
+  exact mul_negate _ _
+
+/-- `NewScaledNumberType(-v) = -NewScaledNumberType(v)` (number negated, same scale), both members -/
+theorem newScaled_negate (cfg : Cfg) (v : Dbl) :
+    newScaled cfg v.negate = (-(newScaled cfg v).1, (newScaled cfg v).2) := by
+  unfold newScaled
+  simp only [scaledProduct_negate, toInt_negate, decimalsCapped_negate]
+  by_cases h : toInt cfg (scaledProduct v) = 0
+  · simp [h]
+  · have : -toInt cfg (scaledProduct v) ≠ 0 := by omega
+    simp [h, this]
+
+/-- `GetValue` of the negated number is the negated double (for a non-zero number), both members -/
+theorem getValue_neg (cfg : Cfg) (number scale : Int) (hn : number ≠ 0) :
+    getValue cfg (-number) scale = (getValue cfg number scale).negate := by
+  unfold getValue
+  rw [ofInt_neg number hn]
+  split
+  · exact div_negate _ _
+  · exact mul_negate _ _
+
+/-- the bits of a negated double: the other sign bit over the same magnitude bits -/
+theorem bits_negate (a : Dbl) : bits a.negate = (if a.neg then 0 else 1 <<< 63) + bitsMag a := by
+  unfold bits Dbl.negate bitsMag
+  cases a.neg <;> rfl
 
 /-- the defect, kernel-checked: 0.29 comes back as 28 * 10^-2 -/
-theorem trunc_loses_029 : newScaled (parseDec 29 2) = (28, -2) := by decide +kernel
+theorem trunc_loses_029 : newScaled .asWritten (parseDec 29 2) = (28, -2) := by decide +kernel
+
+/-- the repaired member keeps it -/
+theorem round_keeps_029 : newScaled .repaired (parseDec 29 2) = (29, -2) := by decide +kernel
+
+/-- the second defect, kernel-checked: -199998 * 10^-1 read back through the inexact power is
+    -19999.800000000003 (0xC0D387F333333334), one unit in the last place away from -19999.8 -/
+theorem getvalue_inexact_199998 :
+    newScaled .asWritten (parseDec (-199998) 1) = (-199998, -1) ∧
+    bits (parseDec (-199998) 1) = 0xC0D387F333333333 ∧
+    bits (getValue .asWritten (-199998) (-1)) = 0xC0D387F333333334 := by decide +kernel
+
+/-- division by the exact power returns the parsed double -/
+theorem getvalue_div_199998 : getValue .repaired (-199998) (-1) = parseDec (-199998) 1 := by
+  decide +kernel
 
 end Spine.Num
